@@ -108,6 +108,8 @@ def parse_sidecar(path):
 N1_RE = re.compile(r'^(\s*)\((\w+), (\w+)\) = (.+);\s*$')
 N4_RE = re.compile(r"^(\s*(?:pub(?:\([a-z]+\))?\s+)?const\s+\w+\s*:\s*)&(?!'static)(.*)$")
 N3_RE = re.compile(r'^(\s*)([\w.]+)\.clone_from\(&([\w.]+)\);\s*$')
+N5_RE = re.compile(r'^(\s*)let _ = (\w+)\.join\(\);\s*$')
+N6_RE = re.compile(r'\(\|_\|')
 
 
 # N2: lambda lifting of the one closure that captures `&mut self` (Verus has no such closures).  The closure
@@ -161,6 +163,15 @@ def normalise(fname, text):
         if m:
             new = m.group(1) + "&'static " + m.group(2)
             notes.append({'file': fname, 'line': n, 'rule': "N4 elided 'static lifetime in a const item made explicit", 'from': line.strip(), 'to': new.strip()})
+            line = new
+        m = N5_RE.match(line)
+        if m:
+            new = '%scrate::verif_spec::join_and_ignore(%s);' % (m.group(1), m.group(2))
+            notes.append({'file': fname, 'line': n, 'rule': 'N5 `let _ = h.join();` moved into a one-line trusted helper (Verus cannot type Box<dyn Any + Send>)', 'from': line.strip(), 'to': new.strip()})
+            line = new
+        if N6_RE.search(line):
+            new = N6_RE.sub('(|_verif_ignored|', line)
+            notes.append({'file': fname, 'line': n, 'rule': 'N6 closure parameter `_` given a name', 'from': line.strip(), 'to': new.strip()})
             line = new
         m = N3_RE.match(line)
         if m:
